@@ -88,6 +88,8 @@ package search
 //@   mode int
 // the dispatch lists do not share storage with the list of all builders (each grows by its own append)
 //@   requires fb != nil && facetBuilder != nil && implies(fb.facetsByField != nil && in(fb.facetsByField, fieldOf(facetBuilder)), cap(fb.facetsByField[fieldOf(facetBuilder)]) == 0 || cap(fb.facets) == 0 || base(fb.facetsByField[fieldOf(facetBuilder)]) != base(fb.facets)) && (cap(fb.fields) == 0 || cap(fb.facetNames) == 0 || base(fb.fields) != base(fb.facetNames))
+// a field that has a dispatch list is already listed as required
+//@   requires implies(fb.facetsByField != nil && in(fb.facetsByField, fieldOf(facetBuilder)), exists(k, 0, len(fb.fields), fb.fields[k] == fieldOf(facetBuilder)))
 //@   modifies fb.facetsByField, map(fb.facetsByField), fb.facetNames, fb.facetNames[*], fb.facets, fb.facets[*], fb.fields, fb.fields[*], mem(FacetBuilder)
 //@   ensures len(fb.facets) == old(len(fb.facets)) + 1 && fb.facets[len(fb.facets)-1] == facetBuilder && len(fb.facetNames) == old(len(fb.facetNames)) + 1 && fb.facetNames[len(fb.facetNames)-1] == name
 // its field is among the required fields, and no required field is lost
